@@ -298,15 +298,26 @@ fn has_event(world: &World, f: impl Fn(&EvKind) -> bool) -> bool {
 }
 
 async fn wait_for(world: &World, limit: Duration, f: impl Fn(&EvKind) -> bool) -> bool {
-    let deadline = tokio::time::Instant::now() + limit;
+    let start = tokio::time::Instant::now();
+    let deadline = start + limit;
     loop {
         if has_event(world, &f) {
             return true;
         }
-        if tokio::time::Instant::now() >= deadline {
+        let now = tokio::time::Instant::now();
+        if now >= deadline {
             return false;
         }
-        tokio::time::sleep(Duration::from_millis(5)).await;
+        // progressive polling: fine-grained at first, coarse for very slow (virtual-time) sessions
+        let waited = now - start;
+        let step = if waited < Duration::from_secs(1) {
+            Duration::from_millis(5)
+        } else if waited < Duration::from_secs(60) {
+            Duration::from_millis(200)
+        } else {
+            Duration::from_secs(20)
+        };
+        tokio::time::sleep(step).await;
     }
 }
 
@@ -455,13 +466,24 @@ async fn session_main(sc: Scenario) -> Outcome {
         // end-to-end probe: notifications keep flowing
         world.change(&["epilogue_probe".to_string()]);
         if sc.keep_events {
-            out.epilogue_probe_delivered = Some(wait_for(&world, Duration::from_secs(30), |e| matches!(e, EvKind::EventChange(n) if n == "epilogue_probe")).await);
+            out.epilogue_probe_delivered = Some(wait_for(&world, FAR, |e| matches!(e, EvKind::EventChange(n) if n == "epilogue_probe")).await);
         }
         // let the client re-idle after the probe
         tokio::time::sleep(Duration::from_secs(1)).await;
     }
+    let mut fired = false;
     if sc.post_fault_probe && !dropped_by_plan {
-        tokio::time::sleep(Duration::from_secs(2)).await;
+        // wait until the planned fault has happened (if it ever does)
+        for _ in 0..3000 {
+            if world.inner.lock().unwrap().fault_fired {
+                fired = true;
+                break;
+            }
+            tokio::time::sleep(Duration::from_millis(10)).await;
+        }
+    }
+    if sc.post_fault_probe && !dropped_by_plan && fired {
+        tokio::time::sleep(out.d * 4 + Duration::from_secs(1)).await;
         if let Some(cl) = client.as_ref() {
             out.closed_flag_at_end = Some(cl.is_connection_closed());
             // a later request must resolve as well
@@ -472,7 +494,8 @@ async fn session_main(sc: Scenario) -> Outcome {
                 Ok(result) => world.log_ev(EvKind::CallEnd { call, result }),
                 Err(_) => out.hung.push("post-closure probe request".to_string()),
             }
-            tokio::time::sleep(Duration::from_millis(10)).await;
+            // quiescence: the loop may still wait out its re-idle window before it notices the failure
+            tokio::time::sleep(out.d * 4 + Duration::from_secs(1)).await;
             out.closed_flag_at_end = Some(cl.is_connection_closed());
         }
     }
@@ -481,9 +504,9 @@ async fn session_main(sc: Scenario) -> Outcome {
         drop(client.take());
         world.log_ev(EvKind::HandlesDropped);
     }
-    out.transport_dropped = wait_for(&world, Duration::from_secs(30), |e| matches!(e, EvKind::TransportDropped)).await;
+    out.transport_dropped = wait_for(&world, FAR, |e| matches!(e, EvKind::TransportDropped)).await;
     if let Some(col) = collector {
-        match tokio::time::timeout(Duration::from_secs(60), col).await {
+        match tokio::time::timeout(FAR, col).await {
             Ok(_) => out.events_ended = true,
             Err(_) => out.events_ended = false,
         }
